@@ -378,13 +378,24 @@ func (r *runner) step(label string, args ...string) {
 
 // onUnknown registers the goroutines the runtime starts for lease timers, at their first yield point.
 func (r *runner) onUnknown(full string) (int, bool) {
+	// whichever of its yield points the callback reaches first (a tree under test may have reordered its steps): the
+	// server.go ones carry (name, key), timermap's carries the timer key
 	label, args := splitLabel(full)
-	if label != "VCbUnlock" || len(args) < 2 {
-		return 0, false
-	}
 	r.mu.Lock()
 	defer r.mu.Unlock()
-	name, sym := args[0], r.symOfKey(args[1])
+	var name, sym string
+	switch {
+	case (label == "VCbUnlock" || label == "VCbSessRemove") && len(args) >= 2:
+		name, sym = args[0], r.symOfKey(args[1])
+	case label == "VCbTmRemove" && len(args) >= 1:
+		nk, ok := r.tkey[args[0]]
+		if !ok {
+			return 0, false
+		}
+		name, sym = nk[0], nk[1]
+	default:
+		return 0, false
+	}
 	id, ok := r.expectExp[[2]string{name, sym}]
 	if ok {
 		delete(r.expectExp, [2]string{name, sym})
